@@ -248,19 +248,37 @@ func (x *Exec) samePackage(a, b *ssa.Function) bool {
 // opaqueCall records an event, havocs the result and optionally forks a
 // panicking outcome.
 func (x *Exec) opaqueCall(s *State, f *Frame, cc *CallCtx, callee Value, mayPanic bool, setResult func(Value)) []*State {
+	x.externalSafety(s, f, cc)
 	var res Value
 	sig := cc.Common.Signature()
 	rt := sig.Results()
-	switch rt.Len() {
-	case 0:
-	case 1:
-		res = s.freshValue("ret."+shortCallee(cc.Common), rt.At(0).Type())
-	default:
-		res = s.freshValue("ret."+shortCallee(cc.Common), rt)
+	if !mayPanic && x.PureFunc != nil && x.PureFunc(cc.Name) {
+		res = x.pureResult(s, cc, rt)
+	}
+	if res == nil {
+		switch rt.Len() {
+		case 0:
+		case 1:
+			res = s.freshValue("ret."+shortCallee(cc.Common), rt.At(0).Type())
+		default:
+			res = s.freshValue("ret."+shortCallee(cc.Common), rt)
+		}
 	}
 	ev := Event{Kind: "call", Name: cc.Name, Args: cc.Args, Instr: cc.Instr, Callee: callee}
 	if res != nil {
 		ev.Rets = []Value{res}
+		if x.NonNilResult != nil && x.NonNilResult(cc.Name) {
+			switch r := res.(type) {
+			case *PtrVal:
+				if r.Cell == nil {
+					s.Assume(Neq(r.Ref, IntLit(0)))
+				}
+			case *Scalar:
+				if r.T.Sort == SInt {
+					s.Assume(Neq(r.T, IntLit(0)))
+				}
+			}
+		}
 	}
 	if !mayPanic {
 		s.Events = append(s.Events, ev)
@@ -428,6 +446,9 @@ func (x *Exec) builtin(s *State, f *Frame, cc *CallCtx, b *ssa.Builtin) (Value, 
 			return S(IntLit(v.N)), nil
 		case *Scalar:
 			// string / map / chan length: uninterpreted, non-negative
+			if v.T.Sort == SString {
+				return S(App("str.len", SInt, v.T)), nil
+			}
 			x.Ctx.DeclareFunc("len.opaque", []string{SInt}, SInt)
 			t := App("len.opaque", SInt, v.T)
 			if mt, ok := cc.Common.Args[0].Type().Underlying().(*types.Map); ok {
@@ -681,4 +702,120 @@ func (x *Exec) forkAlts(s *State, cc *CallCtx) []*State {
 		out = []*State{}
 	}
 	return out
+}
+
+// pureResult builds the result of a pure external function as uninterpreted
+// functions of its (scalar) arguments. Returns nil if an argument or result is
+// not scalar.
+func (x *Exec) pureResult(s *State, cc *CallCtx, rt *types.Tuple) Value {
+	var args []*Term
+	var sorts []string
+	for _, a := range cc.Args {
+		switch v := a.(type) {
+		case *Scalar:
+			args = append(args, v.T)
+		case *PtrVal:
+			if v.Cell != nil {
+				return nil
+			}
+			if len(v.Path) != 0 {
+				// interior pointer: a function of the object reference and the field path
+				name := "addr"
+				for _, pe := range v.Path {
+					if pe.Index != nil {
+						return nil
+					}
+					name += fmt.Sprintf(".%d", pe.Field)
+				}
+				x.Ctx.DeclareFunc(name, []string{SInt}, SInt)
+				args = append(args, App(name, SInt, v.Ref))
+			} else {
+				args = append(args, v.Ref)
+			}
+		default:
+			return nil
+		}
+		sorts = append(sorts, args[len(args)-1].Sort)
+	}
+	mk := func(i int, t types.Type) Value {
+		if !isScalarType(t) {
+			return nil
+		}
+		name := fmt.Sprintf("pure.%s.%d", sanitize(cc.Name), i)
+		so := sortOfType(t)
+		if len(args) == 0 {
+			return s.unreify(Atom(name, so), t)
+		}
+		x.Ctx.DeclareFunc(name, sorts, so)
+		term := App(name, so, args...)
+		if so == SInt {
+			s.Assume(Ge(term, IntLit(0)))
+		}
+		return s.unreify(term, t)
+	}
+	switch rt.Len() {
+	case 0:
+		return nil
+	case 1:
+		return mk(0, rt.At(0).Type())
+	}
+	tv := make(TupleVal, rt.Len())
+	for i := range tv {
+		v := mk(i, rt.At(i).Type())
+		if v == nil {
+			return nil
+		}
+		tv[i] = v
+	}
+	return tv
+}
+
+// ExternalRequires are assumed preconditions of library functions whose
+// violation panics; each becomes a safety obligation at its call sites.
+var ExternalRequires = map[string]func(x *Exec, s *State, cc *CallCtx) (*Term, string){}
+
+func init() {
+	ExternalRequires["go/constant.BoolVal"] = func(x *Exec, s *State, cc *CallCtx) (*Term, string) {
+		v := x.scalar(cc.Args[0])
+		name := "pure." + sanitize("invoke go/constant.Value.Kind") + ".0"
+		x.Ctx.DeclareFunc(name, []string{SInt}, SInt)
+		k := App(name, SInt, v)
+		// BoolVal panics unless x is a Bool (kind 1) or Unknown (kind 0) constant; a nil Value panics
+		return And(Neq(v, IntLit(0)), Or(Eq(k, IntLit(1)), Eq(k, IntLit(0)))), "constant.BoolVal-needs-bool-constant"
+	}
+	ExternalRequires["(*go/types.Tuple).At"] = func(x *Exec, s *State, cc *CallCtx) (*Term, string) {
+		t := x.scalar(cc.Args[0])
+		i := x.scalar(cc.Args[1])
+		name := "pure." + sanitize("(*go/types.Tuple).Len") + ".0"
+		x.Ctx.DeclareFunc(name, []string{SInt}, SInt)
+		return And(Le(IntLit(0), i), Lt(i, App(name, SInt, t))), "types.Tuple.At-index-in-range"
+	}
+}
+
+// externalSafety emits the safety obligations of a call into code that is not
+// under contract: non-nil interface receiver, non-nil pointer receiver of an
+// external method, and registered library preconditions.
+func (x *Exec) externalSafety(s *State, f *Frame, cc *CallCtx) {
+	if !x.Safety {
+		return
+	}
+	c := cc.Common
+	if c.IsInvoke() {
+		recv := x.scalar(cc.Args[0])
+		x.safety(s, f, cc.Instr, "nil-interface-method-call", Neq(recv, IntLit(0)))
+		return
+	}
+	fn, ok := c.Value.(*ssa.Function)
+	if !ok {
+		return
+	}
+	if req, ok := ExternalRequires[fn.String()]; ok {
+		t, label := req(x, s, cc)
+		x.safety(s, f, cc.Instr, label, t)
+	}
+	if fn.Signature.Recv() != nil && len(cc.Args) > 0 && x.NilReceiverPanics != nil && x.NilReceiverPanics(fn) {
+		if p, ok := cc.Args[0].(*PtrVal); ok && p.Cell == nil && len(p.Path) == 0 {
+			x.safety(s, f, cc.Instr, "nil-receiver", Neq(p.Ref, IntLit(0)))
+		}
+	}
 }
